@@ -344,7 +344,7 @@ func c16Scenarios(tier string) []scenario {
 		add(c16Params{Name: "local-never-wbig", K: k, Init: "local", Echo: "never", Writers: 2, BigStream: true}, P(0), P(1))
 		// (with a peer that takes 64 bytes and then nothing until 1 s the streamer parks inside its
 		// first frame: the Close frame queues behind it without a preemption)
-		add(c16Params{Name: "local-never-wbig-slowpeer", K: k, Init: "local", Echo: "never", Writers: 2, BigStream: true, SlowPeer: true}, P(0), P(1))
+		add(c16Params{Name: "local-never-wbig-slowpeer", K: k, Init: "local", Echo: "never", Writers: 2, BigStream: true, SlowPeer: true}, P(1), P(2))
 	}
 	for _, k := range roles {
 		for _, echo := range []string{"early", "late", "never"} {
